@@ -67,6 +67,7 @@ func (p *ProjectionPlan) Batch(ctx *ExecuteCtx) ([][]Column, error) {
 }
 
 func (p *ProjectionPlan) processProjectionBatch(chunk []KVPair, ctx *ExecuteCtx) ([][]Column, error) {
+	simYield("project.batch")
 	var (
 		nFields = len(p.Fields)
 		ret     = make([][]Column, len(chunk))
@@ -100,6 +101,7 @@ func (p *ProjectionPlan) processProjectionBatch(chunk []KVPair, ctx *ExecuteCtx)
 }
 
 func (p *ProjectionPlan) processProjection(kvp KVPair, ctx *ExecuteCtx) ([]Column, error) {
+	simYield("project.row")
 	nFields := len(p.Fields)
 	ret := make([]Column, nFields)
 	var (
